@@ -215,7 +215,13 @@ impl ParsedFormula {
     }
 
     pub fn to_free_index(&self, ns: &NamedSymbol) -> usize {
-        self.raw2free[ns.id].unwrap_or_else(|| panic!("{} is not a free variable", ns))
+        // raw2free is indexed by the position of the variable in `vars` (sorted by id); ids
+        // themselves may have gaps or be arbitrarily large when a variable ordering is supplied
+        let raw = self
+            .vars
+            .binary_search_by(|v| v.id.cmp(&ns.id))
+            .unwrap_or_else(|_| panic!("{} is not a variable of this formula", ns));
+        self.raw2free[raw].unwrap_or_else(|| panic!("{} is not a free variable", ns))
     }
 
     pub fn extract_vars(tokens: &[SymbolicBDDToken]) -> Vec<NamedSymbol> {
@@ -248,13 +254,11 @@ impl ParsedFormula {
 
         let formula = SymbolicBDD::parse_formula(&mut tokens.iter().peekable())?;
 
-        // raw2free is indexed by variable id; ids are not contiguous when the variable
-        // ordering lists names that the formula does not use
-        let n = vars.last().map_or(0, |v| v.id + 1);
+        let n = vars.len();
         let mut result = Self {
             vars,
             free_vars: Vec::new(),
-            raw2free: vec![None; n],
+            raw2free: Vec::with_capacity(n),
             bdd: formula,
             env,
             definitions: Default::default(),
@@ -262,11 +266,15 @@ impl ParsedFormula {
 
         let mut vi = 0;
         for v in &result.vars {
-            if result.var_is_free(&result.bdd, v) {
+            result.raw2free.push(if result.var_is_free(&result.bdd, v) {
                 result.free_vars.push(v.clone());
-                result.raw2free[v.id] = Some(vi);
+                let v_result = vi;
                 vi += 1;
-            }
+
+                Some(v_result)
+            } else {
+                None
+            });
         }
 
         Ok(result)
